@@ -394,6 +394,101 @@ fn all_patterns<S: Dens>(m: usize, base: u64) -> Result<(usize, Option<(Vec<Op>,
     Ok((n, None))
 }
 
+/// Large sketch sizes, powers of two and not (a bin index drawn with a different algorithm, a narrower index type or a table
+/// only show there): one stream of n consecutive identifiers, item by item + end_sketch against one sketch_slice call, with
+/// the finishing-edge invariants checked in O(m log m).
+fn large_size_case<S: Dens>(m: usize, base: u64, n: u64) -> Result<(), String> {
+    use std::collections::{HashMap, HashSet};
+    let r = guarded_mut(|| -> Result<(), String> {
+        let _w = crate::common::watched(|| format!("{} m={}: stream of {} items", S::name(), m, n));
+        let items: Vec<u64> = (base..base + n).collect();
+        let mut a = S::new(m);
+        for x in &items {
+            a.sketch(x);
+        }
+        let before = a.state();
+        a.end_sketch();
+        let after = a.state();
+        let mut b = S::new(m);
+        b.sketch_slice(&items)?;
+        let sb = b.state();
+        if sb != after {
+            let k = (0..m).find(|k| sb.hs[*k] != after.hs[*k] || sb.values[*k] != after.values[*k]);
+            return Err(format!("sketch_slice of {} items differs from item-wise sketch + end_sketch (first differing position: {:?})", n, k));
+        }
+        if after.nb_empty != 0 || after.init.iter().any(|x| !*x) {
+            return Err(format!("after finishing, nb_empty = {}", after.nb_empty));
+        }
+        let populated: HashSet<(u64, u64)> = (0..m).filter(|k| before.init[*k]).map(|k| (before.hs[k], before.values[k])).collect();
+        for k in 0..m {
+            if before.init[k] {
+                if before.hs[k] != after.hs[k] || before.values[k] != after.values[k] {
+                    return Err(format!("bin {} was populated and was changed by densification", k));
+                }
+            } else if !populated.contains(&(after.hs[k], after.values[k])) {
+                return Err(format!("empty bin {} was filled with a pair that is not the (value, hash) pair of a populated bin", k));
+            }
+        }
+        let hashes: HashSet<u64> = items.iter().map(S::item_hash).collect();
+        if let Some(k) = (0..m).find(|k| !hashes.contains(&after.values[*k])) {
+            return Err(format!("position {} holds {:#x}, not the hash of a streamed item", k, after.values[k]));
+        }
+        let v = a.views();
+        if v.v64 != after.values || v.hs != after.hs {
+            return Err("public views differ from the internal state".into());
+        }
+        let mut seen: HashMap<u64, (u64, u32)> = HashMap::new();
+        for k in 0..m {
+            if v.v32[k] != murmur32_of(v.v64[k]) {
+                return Err(format!("u32 view at {} is not murmur3_32(seed 127) of the u64 view", k));
+            }
+            let e = seen.entry(v.v64[k]).or_insert((v.hs[k], v.v32[k]));
+            if *e != (v.hs[k], v.v32[k]) {
+                return Err(format!("position {} agrees with an earlier one in the u64 view but not in the float/u32 views", k));
+            }
+        }
+        a.end_sketch();
+        if a.state() != after {
+            return Err("a second end_sketch changed the sketch".into());
+        }
+        Ok(())
+    });
+    match r {
+        Ok(x) => x.map_err(|e| format!("{} m={}: {}", S::name(), m, e)),
+        Err(p) => Err(format!("{} m={}: panic {}", S::name(), m, p)),
+    }
+}
+
+fn large_sizes(ctx: &Ctx, base: u64) -> u64 {
+    let mut sizes: Vec<usize> = vec![255, 256, 257, 1000, 4097, 50_000, 65_535, 65_536, 65_537, 1_000_003, 3 << 20];
+    if !ctx.quick() {
+        sizes.extend_from_slice(&[(1 << 24) + 1, 5 << 22]);
+    }
+    let n: u64 = 1 << 17;
+    let mut cases = 0;
+    macro_rules! go {
+        ($t:ty, $tag:expr, $maxm:expr) => {
+            let mut reported = false;
+            for &m in sizes.iter().filter(|m| **m <= $maxm) {
+                cases += 1;
+                if let Err(w) = large_size_case::<$t>(m, base << 8, n.min(4 * m as u64).max(64)) {
+                    if !reported {
+                        reported = true;
+                        ctx.violation(&format!("large-size:{}", $tag), &w, json!({"kind": "large", "sketcher": $tag, "m": m, "base": base << 8}));
+                    }
+                }
+            }
+        };
+    }
+    // the reverse densification seeds one ChaCha generator per populated bin and pass (about m ln m seedings): sizes above
+    // a million take tens of seconds there and are left to the other algorithm
+    go!(OptDensMinHash<f64, u64, FnvHasher>, "opt64", usize::MAX);
+    go!(RevOptDensMinHash<f64, u64, FnvHasher>, "rev64", 1_000_003);
+    go!(OptDensMinHash<f32, u64, FnvHasher>, "opt32", usize::MAX);
+    go!(RevOptDensMinHash<f32, u64, FnvHasher>, "rev32", 65_537);
+    cases
+}
+
 fn ops_json(ops: &[Op]) -> Value {
     json!(ops
         .iter()
@@ -621,13 +716,15 @@ pub fn run(ctx: &Ctx) -> i32 {
     // no-op hasher: the stored hashes are the identifiers themselves, including the boundary values 0 and u64::MAX
     do_type!(OptDensMinHash<f64, u64, NoHashHasher>, "opt64nohash", max_m - 2);
     do_type!(RevOptDensMinHash<f64, u64, NoHashHasher>, "rev64nohash", max_m - 2);
+    let n_large = large_sizes(ctx, base);
+    println!("C09 large sizes: {} (sketcher, m) cases", n_large);
     let mut empty_stats = Vec::new();
     let n_empty = empty_stream_cases(ctx, &mut empty_stats);
     println!("C09 states={} transitions={} occupancy-patterns(direct)={} empty-stream cases={}", tot_states, tot_trans, tot_patterns, n_empty);
     let coverage = json!({
         "states": tot_states,
         "transitions": tot_trans,
-        "traces_validated_against_impl": tot_trans as u64 + n_empty,
+        "traces_validated_against_impl": tot_trans as u64 + n_empty + n_large,
         "samples": [
             {"path": ["sketch(w_bin0)", "sketch(w_bin2)", "end_sketch", "sketch(w_bin1)", "end_sketch", "reinit"]},
             {"pattern": {"m": 9, "populated_bins": [0, 3, 8], "then": "end_sketch"}},
@@ -639,6 +736,7 @@ pub fn run(ctx: &Ctx) -> i32 {
         "rule": "stateright BFS to a fixed point over the complete internal state (hook H3) of the real sketcher; ops: sketch(witness) for one witness item per bin (two for the first and last bin), end_sketch, sketch_slice over 4 chunks (including the empty one), reinit; each transition replays the shortest history on a fresh real instance; on every finishing edge: populated bins unchanged, every other bin holds the (value,hash) of a populated bin, nb_empty=0, all positions are hashes of streamed items, u32 view = murmur3(127) of u64 view, equal u64 entries => equal float/u32 entries, second end_sketch is a no-op, sketch_slice = item-wise + end_sketch, reinit = initial state; plus every non-empty occupancy pattern for larger m; finishing an empty stream runs in a supervised sub-process with a 5 s horizon",
         "spaces": spaces,
         "direct_occupancy_patterns": tot_patterns,
+        "large_sizes": {"cases": n_large, "what": "m in {255,256,257,1000,4097,50000,65535,65536,65537,1000003,3*2^20} (thorough: 2^24+1, 5*2^22), 4 sketcher types, one stream of min(2^17,4m) consecutive identifiers: sketch_slice = item-wise + end_sketch on the whole internal state, and the finishing-edge invariants; one stream per size, not exhaustive"},
         "empty_stream_cases": empty_stats,
     });
     ctx.finish(
@@ -647,7 +745,7 @@ pub fn run(ctx: &Ctx) -> i32 {
         vec![
             "hook H3 returns the complete mutable state of the sketcher".into(),
             "densification reads only the occupancy pattern, so one witness item per bin covers all densification behaviours for a given m".into(),
-            "m above the explored bound behaves like below".into(),
+            "m above the exhaustively explored bound is covered by one stream per size only (sizes listed under large_sizes)".into(),
         ],
     )
 }
@@ -673,6 +771,19 @@ pub fn replay(_ctx: &Ctx, case: &Value) -> Result<(bool, String), String> {
                 Some("rev64nohash") => replay_ops::<RevOptDensMinHash<f64, u64, NoHashHasher>>(m, &ops, wit, chunks),
                 _ => return Err("sketcher".into()),
             })
+        }
+        Some("large") => {
+            let m = case["m"].as_u64().ok_or("m")? as usize;
+            let base = case["base"].as_u64().ok_or("base")?;
+            let n = (1u64 << 17).min(4 * m as u64).max(64);
+            let r = match case["sketcher"].as_str() {
+                Some("opt64") => large_size_case::<OptDensMinHash<f64, u64, FnvHasher>>(m, base, n),
+                Some("rev64") => large_size_case::<RevOptDensMinHash<f64, u64, FnvHasher>>(m, base, n),
+                Some("opt32") => large_size_case::<OptDensMinHash<f32, u64, FnvHasher>>(m, base, n),
+                Some("rev32") => large_size_case::<RevOptDensMinHash<f32, u64, FnvHasher>>(m, base, n),
+                _ => return Err("sketcher".into()),
+            };
+            Ok((r.is_err(), format!("{:?}", r)))
         }
         Some("empty") => {
             let which = case["which"].as_str().ok_or("which")?;
